@@ -1,12 +1,13 @@
 #!/bin/sh
 # Build the whole Coq development from files on disk (offline). Generated files are produced
-# from /repo's current maps.py and from spec/gates_spec.py.
+# from /repo's current maps.py / validator.py and from spec/gates_spec.py.
 set -e
 HERE="$(cd "$(dirname "$0")" && pwd)"
 cd "$HERE"
 mkdir -p .cache evidence/replay
 /venv/bin/python translator/maps2coq.py "${VERIF_REPO:-/repo}/src/pyqasm/maps.py" coq/Gates/GatesGen.v coq/.maps2coq_report.json
 /venv/bin/python spec/gates_spec.py coq/Gates/GateSpecGen.v
+/venv/bin/python translator/cast2coq.py "${VERIF_REPO:-/repo}/src/pyqasm/maps.py" "${VERIF_REPO:-/repo}/src/pyqasm/validator.py" coq/Lang/CastGen.v || true
 cd coq
 coq_makefile -f _CoqProject -o Makefile >/dev/null
 timeout 3000 make -j"$(nproc)" 2>&1 | tail -5
